@@ -113,6 +113,9 @@ func run(sc scenario, choose vs.Chooser, traceOn bool) (*observation, *vs.Sched,
 		if err != nil {
 			return
 		}
+		// the "client does not read" condition only concerns the failure path (the alert write); once NewConn has
+		// succeeded the caller's own writes are given a reading peer again
+		t.Blocked = false
 		if sc.Cancel == "after-return" {
 			ob.cancelAt, ob.cancelled = vs.Elapsed(), true
 			cancel()
